@@ -8,6 +8,7 @@ CONSTANTS
   ConsSet <- FreeOnly
   MaxSteps = 1
   Emit = TRUE
+  MatChange = FALSE
   Mutant = "none"
 INVARIANT Motion
 INVARIANT Prescribed
